@@ -121,7 +121,7 @@ func checkC17(p *Prog, r *Report) {
 				if label == "" {
 					continue
 				}
-				core := stripConv(lenV)
+				core := stripConv(helperResult(stripConv(lenV)))
 				and, isAnd := core.(*ssa.BinOp)
 				maskOK := isAnd && and.Op == token.AND
 				if maskOK {
